@@ -298,3 +298,121 @@ def sweeps_ast(p, K, node, fn_node, _seen=None, view=None) -> set:
             elif m[1] == "prop" and getattr(m[2], "getter", None) is not None:
                 out |= sweeps(p, K, m[2].getter, _seen, view)
     return out
+
+
+# ---------------------------------------------------------------------------------------------------------------------------------
+# loops over literal tables, unrolled: `for k, subs in {"A": (), "B": ("x", "y")}.items(): h = p.create_group(k); for s in subs: h.create_group(s)`
+# stands for the straight-line code it performs, with the locals of each round kept apart (so that a flow-insensitive denotation keeps
+# the pairing of each key with its own sub-table).
+def _literal(e):
+    """python value of a literal made of constants, tuples, lists and dicts — or raise ValueError"""
+    return ast.literal_eval(e)
+
+
+def _rows(it):
+    """[ast node per element] of a literal table iterated by a `for`: a list / tuple / set display, or <dict display>.items() / .keys() / .values()"""
+    if isinstance(it, (ast.List, ast.Tuple, ast.Set)):
+        return list(it.elts)
+    if isinstance(it, ast.Dict) and all(k is not None for k in it.keys):
+        return list(it.keys)
+    if isinstance(it, ast.Call) and isinstance(it.func, ast.Attribute) and isinstance(it.func.value, ast.Dict) and not it.args and all(k is not None for k in it.func.value.keys):
+        d = it.func.value
+        if it.func.attr == "items":
+            return [ast.Tuple(elts=[k, v], ctx=ast.Load()) for k, v in zip(d.keys, d.values)]
+        if it.func.attr == "keys":
+            return list(d.keys)
+        if it.func.attr == "values":
+            return list(d.values)
+    return None
+
+
+def unroll_literal_loops(fn, max_rows: int = 12):
+    """FuncInfo like `fn` in which every `for` over a literal table of constants (without break / continue / else, whose targets are
+    not re-bound in the body) is replaced by one copy of its body per row: the targets substituted by the row's constants, every other
+    local first bound inside the body renamed per round when it is not read outside the loop."""
+    import copy
+    from dataclasses import replace
+
+    counter = [0]
+    changed = [False]
+    root = copy.deepcopy(fn.node)
+
+    def names_bound(stmts):
+        out = set()
+        for s in stmts:
+            for x in ast.walk(s):
+                if isinstance(x, ast.Name) and isinstance(x.ctx, ast.Store):
+                    out.add(x.id)
+        return out
+
+    def bind(target, row):
+        """{name: constant node} for a (possibly tuple) target against one row, or None"""
+        if isinstance(target, ast.Name):
+            return {target.id: row}
+        if isinstance(target, (ast.Tuple, ast.List)) and isinstance(row, (ast.Tuple, ast.List)) and len(target.elts) == len(row.elts):
+            out = {}
+            for t, r in zip(target.elts, row.elts):
+                b = bind(t, r)
+                if b is None:
+                    return None
+                out.update(b)
+            return out
+        return None
+
+    def unroll_block(stmts):
+        out = []
+        for s in stmts:
+            for fld in ("body", "orelse", "finalbody"):
+                blk = getattr(s, fld, None)
+                if isinstance(blk, list) and blk and isinstance(blk[0], ast.stmt):
+                    setattr(s, fld, unroll_block(blk))
+            for h in getattr(s, "handlers", []) or []:
+                h.body = unroll_block(h.body)
+            if isinstance(s, ast.For) and not s.orelse:
+                rows = _rows(s.iter)
+                if rows is None:
+                    rows = _rows(expanded(s.iter, root))  # the table read into a local first
+                ok = rows is not None and len(rows) <= max_rows
+                if ok:
+                    try:
+                        for r in rows:
+                            _literal(r)
+                    except (ValueError, SyntaxError, TypeError):
+                        ok = False
+                if ok and any(isinstance(x, (ast.Break, ast.Continue, ast.Return)) for b in s.body for x in ast.walk(b)):
+                    ok = False
+                tnames = {x.id for x in ast.walk(s.target) if isinstance(x, ast.Name)}
+                if ok and tnames & names_bound(s.body):
+                    ok = False
+                binds = [bind(s.target, r) for r in rows] if ok else []
+                if ok and any(b is None for b in binds):
+                    ok = False
+                if ok:
+                    inner = names_bound(s.body)
+                    outside = {x.id for x in ast.walk(root) if isinstance(x, ast.Name) and not any(x is y for b in s.body for y in ast.walk(b))}
+                    private = inner - outside
+                    rounds = []
+                    for b in binds:
+                        counter[0] += 1
+                        k = counter[0]
+
+                        class Sub(ast.NodeTransformer):
+                            def visit_Name(self, node, b=b, k=k):
+                                if node.id in b and isinstance(node.ctx, ast.Load):
+                                    return ast.copy_location(copy.deepcopy(b[node.id]), node)
+                                if node.id in private:
+                                    return ast.copy_location(ast.Name(id=f"{node.id}__u{k}", ctx=node.ctx), node)
+                                return node
+
+                        body = [Sub().visit(copy.deepcopy(x)) for x in s.body]
+                        rounds += unroll_block(body)  # an inner loop over a sub-table that has just become literal
+                    changed[0] = True
+                    out += rounds or [ast.copy_location(ast.Pass(), s)]
+                    continue
+            out.append(s)
+        return out
+
+    root.body = unroll_block(root.body)
+    if not changed[0]:
+        return fn
+    return replace(fn, node=ast.fix_missing_locations(root))
